@@ -134,7 +134,7 @@ struct vf_log_ghost { int disp; cJSON_bool disp_ret; size_t pv_end; } g_lg;
 
 /* what every parse function guarantees about its buffer and item (derived from the code, checked for each) */
 #define PARSE_COMMON(item, b) \
-    __CPROVER_ensures(PB_SAME(b) && (__CPROVER_return_value ? (b)->depth == __CPROVER_old((b)->depth) : (b)->depth >= __CPROVER_old((b)->depth))) /*@C01 C10*/ \
+    __CPROVER_ensures(PB_SAME(b) && (__CPROVER_return_value ? (b)->depth == __CPROVER_old((b)->depth) : (b)->depth >= __CPROVER_old((b)->depth))) /*@C01 C02 C04 C10*/ \
     __CPROVER_ensures(__CPROVER_return_value ==> (b)->offset > __CPROVER_old((b)->offset)) /*@C01*/ \
     __CPROVER_ensures(!__CPROVER_return_value ==> ((item)->type == __CPROVER_old((item)->type) && (item)->valuestring == __CPROVER_old((item)->valuestring) && \
         (item)->child == __CPROVER_old((item)->child) && (item)->valueint == __CPROVER_old((item)->valueint))) /*@C03*/ \
